@@ -555,6 +555,8 @@ def decide(pid, tier, seed, replay, t0):
     except subprocess.TimeoutExpired:
         info["optimized_interpreter_cases"] = "timeout (not a violation)"
     for l, o1, o2 in mode_diffs[:20]:
+        if not o2.startswith("ok"):
+            continue                # a refusal in the other interpreter mode hands out nothing wrong
         try:
             msg = mod.oracle(l, o2)
         except Exception:
@@ -575,7 +577,8 @@ def decide(pid, tier, seed, replay, t0):
         for i in pick:
             o2 = impl.run_alt(lines[i])
             n_alt += 1
-            if o2 != impl_out[i] and impl.run(lines[i]) == impl_out[i]:
+            # (only a WRONG ANSWER counts: a library that refuses the alternative form hands out nothing wrong)
+            if o2 != impl_out[i] and o2.startswith("ok") and impl.run(lines[i]) == impl_out[i]:
                 try:
                     msg = mod.oracle(full_lines[i], o2)
                 except Exception:
@@ -603,7 +606,7 @@ def decide(pid, tier, seed, replay, t0):
             how = ("pickle", "deepcopy", "copy")[n_cp % 3]
             o2 = impl.run_copy(lines[i], how)
             n_cp += 1
-            if o2 != impl_out[i] and impl.run(lines[i]) == impl_out[i]:
+            if o2 != impl_out[i] and o2.startswith("ok") and impl.run(lines[i]) == impl_out[i]:
                 try:
                     msg = mod.oracle(full_lines[i], o2)
                 except Exception:
